@@ -59,6 +59,23 @@ Theorem C07_settled_monitor : forall s, reachable s ->
 Proof. exact settled_monitor. Qed.
 Print Assumptions C07_settled_monitor.
 
+(* Concurrent allocation. [aout n0 threads sched] = what [threads] threads observe when one
+   id (n0) is drawn first, then the draws happen in the order [sched] (ANY list of thread
+   numbers = any interleaving; each draw is the one atomic counter step of the transition
+   system, Proofs.astep_is_step), then one more id is drawn.  Under every schedule and from
+   every counter value the observed-allocation monitor holds: all ids pairwise distinct,
+   every thread's ids strictly increasing. *)
+Theorem C07_ids_fresh_any_interleaving : forall n0 threads sched,
+  match aout n0 threads sched with OAlloc b a seqs => monitor_alloc b a seqs = true | _ => False end.
+Proof. exact alloc_any_schedule. Qed.
+Print Assumptions C07_ids_fresh_any_interleaving.
+
+(* ... and that monitor says what it should about an observed allocation output *)
+Theorem C07_monitor_alloc_is_property : forall b a seqs, monitor_alloc b a seqs = true <->
+  NoDup (b :: a :: concat seqs) /\ forall q, In q seqs -> incr q = true.
+Proof. exact monitor_alloc_spec. Qed.
+Print Assumptions C07_monitor_alloc_is_property.
+
 Theorem C07_model_satisfies_monitor : forall i, monitor i (model i) = true.
 Proof. exact model_satisfies_monitor. Qed.
 Print Assumptions C07_model_satisfies_monitor.
